@@ -121,13 +121,18 @@ type session struct {
 	authTag uint32
 }
 
-func newSession(user, password, key string, rcvTimeout time.Duration, bufBlocks uint16) (*session, error) {
+func newSession(user, password, key string, rcvTimeout time.Duration, bufBlocks uint16) (s *session, err error) {
+	defer func() {
+		if r := recover(); r != nil {
+			s, err = nil, fmt.Errorf("NewClient panics")
+		}
+	}()
 	cl, err := rscp.NewClient(rscp.ClientConfig{Address: "127.0.0.1", Port: 1, Username: user, Password: password, Key: key,
 		ConnectionTimeout: 300 * time.Millisecond, SendTimeout: 300 * time.Millisecond, ReceiveTimeout: rcvTimeout, ReceiveBufferBlockSize: bufBlocks})
 	if err != nil {
 		return nil, err
 	}
-	s := &session{cl: cl, p: newPeer(key), authTag: uint32(rscp.RSCP_REQ_AUTHENTICATION)}
+	s = &session{cl: cl, p: newPeer(key), authTag: uint32(rscp.RSCP_REQ_AUTHENTICATION)}
 	s.p.decide = func(conn int, f peerFrame) behaviour {
 		if s.cur == nil {
 			return behaviour{kind: "closeBefore"}
